@@ -113,6 +113,13 @@ func c07Configs(env *engine.Env) []c07Config {
 		return Setting{Name: "default"}.doc([]model.Entry{{Src: fixture.LongSrcDir + "/payload.bin", Dst: "/opt/payload.bin"}, {Src: fixture.LongSrcDir + "/settings.conf", Dst: "/etc/settings.conf", Type: "config"},
 			{Src: fixture.LongSrcDir + "/*.conf", Dst: "/etc/globbed"}, {Src: "longsrc", Dst: "/opt/longsrc", Type: "tree"}}, root)
 	}})
+	// owner and group names the build host knows too (daemon, bin, nobody), no maintainer configured: what the host's
+	// user database and the maintainer's environment variables say is not an input
+	out = append(out, c07Config{name: "host-known-owners", doc: func(env *engine.Env, root string) fixture.Doc {
+		d := Setting{Name: "default"}.doc([]model.Entry{{Src: "bin/app", Dst: "/usr/bin/app", Owner: "daemon", Group: "daemon"}, {Dst: "/var/lib/app", Type: "dir", Owner: "nobody", Group: "nogroup"}, {Src: "etc/app.conf", Dst: "/etc/app.conf", Type: "config", Owner: "bin", Group: "bin"}, {Src: "tree", Dst: "/opt/tree", Type: "tree", Owner: "daemon", Group: "bin"}}, root)
+		delete(d, "maintainer")
+		return d
+	}})
 	// files larger than every compressor window / parallel-compression threshold (21 MiB in all)
 	out = append(out, c07Config{name: "huge-files", heavy: true, doc: func(env *engine.Env, root string) fixture.Doc {
 		return Setting{Name: "default"}.doc([]model.Entry{{Src: "huge", Dst: "/opt/huge", Type: "tree"}, {Src: "huge/noise.bin", Dst: "/opt/second-copy.bin"}}, root)
@@ -230,6 +237,14 @@ func judgeStamps(env *engine.Env, f string, data []byte, allowed map[int64]strin
 	if err != nil {
 		viol("repro:undecodable:"+f, "%v", err)
 		return
+	}
+	// numeric user and group ids cannot be configured (owners are names): an id other than 0 comes from the build host
+	for i := range pkg.Entries {
+		e := &pkg.Entries[i]
+		if e.UID != 0 || e.GID != 0 {
+			viol("repro:host-ids:"+f, "%s carries the numeric ids %d:%d (owner %q group %q): ids are not part of a configuration, they can only come from the build host's user database", e.Path, e.UID, e.GID, e.Owner, e.Group)
+			break
+		}
 	}
 	for _, s := range pkg.Stamps {
 		if _, ok := allowed[s.Unix]; ok {
@@ -472,6 +487,17 @@ func checkC07(env *engine.Env, ci any) engine.Outcome {
 		runBin("umask=000", text, work, "UMASK=000")
 		runBin("LC_ALL=tr_TR.UTF-8", text, work, "LC_ALL=tr_TR.UTF-8", "LANG=tr_TR.UTF-8")
 		runBin("HOME=/nonexistent", text, work, "HOME=/nonexistent", "USER=someone", "LOGNAME=someone")
+		// the variables packaging tools traditionally read for the maintainer's identity, the temporary directory, and
+		// SOURCE_DATE_EPOCH next to a configured mtime (the configured one is the package's time)
+		runBin("maintainer-env", text, work, "DEBFULLNAME=Env Maintainer", "DEBEMAIL=env@maintainer.example", "EMAIL=env2@maintainer.example", "NAME=Env Name", "GIT_AUTHOR_NAME=Git Author", "GIT_AUTHOR_EMAIL=git@author.example", "PACKAGER=Env Packager <p@env.example>", "RPM_PACKAGER=x", "HOSTNAME=envhost.example", "HOST=envhost2.example")
+		func() {
+			td := filepath.Join(work, "other-tmp")
+			os.Mkdir(td, 0o755)
+			runBin("TMPDIR", text, work, "TMPDIR="+td, "TMP="+td, "TEMP="+td)
+		}()
+		if strings.Contains(text, "\nmtime: ") {
+			runBin("SOURCE_DATE_EPOCH-next-to-mtime", text, work, "SOURCE_DATE_EPOCH=1500000000")
+		}
 		if env.Thorough() {
 			for _, tz := range []string{"Pacific/Chatham", "Australia/Lord_Howe", "Pacific/Kiritimati", "Etc/GMT+12", "Europe/Dublin"} {
 				runBin("TZ="+tz, text, work, "TZ="+tz)
